@@ -1073,4 +1073,66 @@ theorem lift_applies (S : Schema) (hts : TextStableP S) (ty0 : TypeId) (a0 : Att
     subst h2
     exact hpay
 
+/-! ### when nothing is split the guard is the approval -/
+
+theorem liftPieces_flat (S : Schema) (nodeAt : Nat → Node) (splitsAt : Nat → Bool) (keep : Nat → List Node)
+    (put : List Node → List Node → List Node) (target : Nat) :
+    ∀ (n : Nat) (ok : Bool), (∀ i, i < n → splitsAt (target + i + 1) = false) →
+      liftPieces S nodeAt splitsAt keep put target n none ok = (none, ok)
+  | 0, _, _ => rfl
+  | n + 1, ok, h => by
+    unfold liftPieces
+    simp only [Option.isSome_none, Bool.false_or, h n (Nat.lt_succ_self n), Bool.false_eq_true, if_false]
+    exact liftPieces_flat S nodeAt splitsAt keep put target n ok (fun i hi => h i (by omega))
+
+/-- **nothing is split ∧ `lift_target` approves ⇒ `liftGuardR`**: the general guard asks nothing more than
+    `lift_target`'s `can_replace(index, end_index, content)` then -/
+theorem liftGuardR_of_flat (S : Schema) {doc : Node} {a b : Nat} (depth target : Nat) {f t : RPos}
+    (hf : doc.resolve a = some f) (ht : doc.resolve b = some t) (hv : S.checkNode doc = true)
+    (hab : a ≤ b) (hend : b ≤ f.end_ depth)
+    (hg : liftFlatGuardR f t depth target = true)
+    (hc : liftTargetR S f t depth = some (some target)) : liftGuardR S f t depth target = true := by
+  have Rf := resolve_resolved hf
+  have Rt := resolve_resolved ht
+  unfold liftTargetR at hc
+  split at hc
+  · simp at hc
+  rename_i hdd
+  simp only [Bool.or_eq_true, decide_eq_true_eq, not_or, Nat.not_lt] at hdd
+  obtain ⟨hdf, hdt⟩ := hdd
+  obtain ⟨_, htd, hcr, _⟩ := liftLoop_spec S f t depth _ depth target hc
+  have G := liftFlatGuardR_spec hg
+  have pf := Rf.pos_in depth hdf
+  have pt := Rt.pos_in depth hdt
+  have same := same_ancestors Rf Rt depth b hdf hdt (by omega) hend pt.1 pt.2
+  obtain ⟨tyC, aC, mC, kC, eC, hspT, _, _, _⟩ := Resolved.level_deep hf target (by omega)
+  obtain ⟨tyP, aP, mP, kP, eP⟩ : ∃ ty a m k, f.node target = .elem ty a m k := by
+    rcases Nat.eq_zero_or_pos target with h0 | hpos
+    · subst h0
+      have hd := Rf.depth_eq
+      rw [Rf.node_zero]
+      cases doc with
+      | elem ty a m k => exact ⟨_, _, _, _, rfl⟩
+      | text s m => simp [Node.kids, depthAt] at hd; omega
+      | leaf ty a m => simp [Node.kids, depthAt] at hd; omega
+    · obtain ⟨ty, a', m, k, e⟩ := resolve_node_elem hf (target - 1) (by omega)
+      rw [show target - 1 + 1 = target by omega] at e
+      exact ⟨_, _, _, _, e⟩
+  have hvnP : S.validContent (S.tyOf (f.node target)) (f.node target).kids = true :=
+    validContent_of_checkNode S _ tyP aP mP (by rw [eP]; rfl) (path_valid S Rf hv target (by omega))
+  have hia : t.indexAfter target = f.index target + 1 := by
+    unfold RPos.indexAfter
+    rw [if_neg (by simp; omega), (same target (by omega)).2.2.2 htd]
+  have hprelen : ((f.node target).kids.take (f.index target)).length = f.index target := by
+    rw [List.length_take]
+    have := Rf.index_le target (by omega)
+    omega
+  have hvnew := nodeCanReplace_valid S (f.node target) _ _
+    (cutByIndex (f.node depth).kids (f.index depth) (t.indexAfter depth)) _ hspT hvnP
+    (by rw [hprelen, ← hia]; exact hcr)
+  unfold liftGuardR
+  rw [liftPieces_flat _ _ _ _ _ _ _ _ (fun i hi => by simp [(G i hi).1]),
+    liftPieces_flat _ _ _ _ _ _ _ _ (fun i hi => by simpa using (G i hi).2)]
+  simpa [hia] using hvnew
+
 end PM
